@@ -398,7 +398,7 @@ _add(PropertySpec(
                'ampycloud.data.CeiloChunk.find_slices', 'ampycloud.data.CeiloChunk._merge_close_groups', 'ampycloud.data.CeiloChunk.metarize',
                'ampycloud.data.CeiloChunk._setup_sligrolay_pdf', 'ampycloud.data.CeiloChunk._calculate_sligrolay_base_height',
                'ampycloud.data.CeiloChunk._calculate_base_height_for_selection', 'ampycloud.data.CeiloChunk._add_sligrolay_information',
-               'ampycloud.layer.ncomp_from_gmm'],
+               'ampycloud.layer.ncomp_from_gmm', 'ampycloud.layer.best_gmm'],
     lemmas=['cnt_frame', 'cnt_mono', 'cnt_subset', 'cnt_union', 'cnt_ext', 'sig_le3', 'abbr_len', 'abbr_re', 'concat_re', 'code_grammar', 'fmt03.digits',
             'prop.C18.h.three_digits', 'prop.C02.nosig', 'prop.C18.h.mono'],
     extras=[_fs.c08], bounded=_bounded('c08'),
